@@ -417,6 +417,17 @@ def tracer_check(rep, configs, pid, nontrivial=None):
                 if r:
                     rep.violation(r[0], dict(r[1], behaviour=h, recording_kind=kind, config=name))
         total += len(uniq)
+        # vacuity guard: which spec actions the explored behaviours actually contain
+        counts = {}
+        for h in uniq:
+            for e in h:
+                k = e["c"] if e["c"] != "rec" else "rec:" + e["ins"]["op"]
+                if e["c"] == "drv":
+                    k = "drv:" + e["name"]
+                counts[k] = counts.get(k, 0) + 1
+        rep.parts[name]["action_counts"] = counts
+        if not any(k in counts for k in ("fwd", "pb")) and not any(k.startswith("drv:") for k in counts):
+            raise Machinery("vacuous configuration %s: no call on the recorded graph was explored" % name)
         big = max(uniq, key=lambda h: len(h))
         rep.sample({"config": name, "behaviour": [{k: v for k, v in e.items() if k not in ("ret", "v")} for e in big]}, maxn=4)
     return total
